@@ -34,4 +34,7 @@ impl SnmpAuth for NoAuth {
     fn sign(&self, _data: &mut [u8], _offset: usize) -> SnmpResult<()> {
         Ok(())
     }
+    fn verify(&self, _data: &[u8], _auth_params: &[u8]) -> bool {
+        true
+    }
 }
